@@ -187,11 +187,11 @@ func declareTree(c *cli.Cmd, t *TCmd, path string, out *TreeOutcome, td *treeDec
 		if o.Bool {
 			v := &FBRec{}
 			c.Var(cli.VarOpt{Name: o.DeclName(), Value: v, EnvVar: env, SetByUser: set})
-			hs = append(hs, Holder{t.D.OptKey(i), &v.Rec, set})
+			hs = append(hs, Holder{Key: t.D.OptKey(i), Rec: &v.Rec, Set: set})
 		} else {
 			v := &FRec{}
 			c.Var(cli.VarOpt{Name: o.DeclName(), Value: v, EnvVar: env, SetByUser: set})
-			hs = append(hs, Holder{t.D.OptKey(i), &v.Rec, set})
+			hs = append(hs, Holder{Key: t.D.OptKey(i), Rec: &v.Rec, Set: set})
 		}
 		if env != "" {
 			unsetenv(env)
@@ -201,7 +201,7 @@ func declareTree(c *cli.Cmd, t *TCmd, path string, out *TreeOutcome, td *treeDec
 		v := &FRec{}
 		set := new(bool)
 		c.Var(cli.VarArg{Name: a.Name, Value: v, SetByUser: set})
-		hs = append(hs, Holder{t.D.ArgKey(i), &v.Rec, set})
+		hs = append(hs, Holder{Key: t.D.ArgKey(i), Rec: &v.Rec, Set: set})
 	}
 	td.holders[path] = hs
 	c.Spec = t.Spec
@@ -280,6 +280,35 @@ func runTreeApp(out *TreeOutcome, app *cli.Cli, c *TreeCase) {
 
 func normWS(s string) string { return strings.Join(strings.Fields(s), " ") }
 
+// shownLevel returns the level of the path whose usage line the stream shows (-1 if none): the deepest level whose
+// full command path is a prefix of the words after "Usage:" (aliases never occur as spec words).
+func shownLevel(stderr string, c *TreeCase) int {
+	for _, line := range strings.Split(stderr, "\n") {
+		f := strings.Fields(line)
+		if len(f) == 0 || f[0] != "Usage:" {
+			continue
+		}
+		best := -1
+		for l := range c.PathCmds() {
+			want := strings.Fields(c.FullPath(l))
+			if len(f)-1 < len(want) {
+				continue
+			}
+			ok := true
+			for i, w := range want {
+				if f[1+i] != w {
+					ok = false
+				}
+			}
+			if ok {
+				best = l
+			}
+		}
+		return best
+	}
+	return -1
+}
+
 func containsUsage(stderr, path string) bool {
 	ns := normWS(stderr) + " "
 	return strings.Contains(ns, "Usage: "+path+" ")
@@ -318,8 +347,12 @@ type TreeExpect struct {
 	HelpAt     int  // level whose long help must be printed, -1 none
 	RejectAt   int  // first rejecting level, -1 none
 	Conversion bool // the rejection is a conversion failure
-	NoAction   bool // addressed command has no Action (library prints help; not claimed)
-	Version    bool
+	// RejectLevels: every level that may legitimately be "the rejecting command": the first level whose spec rejects
+	// its tokens and every level before it holding an unconvertible value (an implementation may match all levels
+	// before it converts any value)
+	RejectLevels []int
+	NoAction     bool // addressed command has no Action (library prints help; not claimed)
+	Version      bool
 }
 
 // ExpectTree computes the expected behaviour from the statement of C04/C07/C14.
@@ -353,23 +386,28 @@ func ExpectTree(c *TreeCase, ideal bool) TreeExpect {
 			e.Unclaimed = lv.cl.Unclaimed
 			return e
 		}
+		accept := lv.cl.Accept
 		if lv.cl.Accept != lv.cl.Greedy && !ideal {
 			// the recorded greedy-group finding decides this level: follow the library's (greedy) verdict, flag the case
 			e.Known = true
-			if !lv.cl.Greedy {
-				e.RejectAt = l
-				return e
-			}
-			continue
+			accept = lv.cl.Greedy
 		}
-		if !lv.cl.Accept {
-			e.RejectAt = l
-			return e
+		if !accept {
+			e.RejectLevels = append(e.RejectLevels, l)
+			break
 		}
 		if lv.conversion {
-			e.RejectAt, e.Conversion = l, true
-			return e
+			e.RejectLevels = append(e.RejectLevels, l)
 		}
+	}
+	if len(e.RejectLevels) > 0 {
+		e.RejectAt = e.RejectLevels[0]
+		for _, t := range c.Levels[e.RejectAt] {
+			if t == BadToken {
+				e.Conversion = classifyLevel(cmds[e.RejectAt], c.Levels[e.RejectAt]).conversion
+			}
+		}
+		return e
 	}
 	if !cmds[len(cmds)-1].HasAction {
 		e.NoAction = true
@@ -477,10 +515,6 @@ func CheckTree(prop string, c *TreeCase, st *Stats) *Violation {
 		}
 		return nil
 	case e.RejectAt >= 0:
-		pol = c.EffPolicy(e.RejectAt)
-		if pol != c.Policy {
-			st.Class("reject:under-a-policy-set-on-a-subcommand")
-		}
 		st.Class("kind:reject")
 		if c.HelpLevel >= 0 {
 			st.Class("help:token-after-dd-is-data")
@@ -491,8 +525,21 @@ func CheckTree(prop string, c *TreeCase, st *Stats) *Violation {
 		if len(out.Log) != 0 {
 			return Violf("rejected invocation (level %d) ran hooks %v; %s", e.RejectAt, out.Log, ctx)
 		}
-		if !containsUsage(out.Stderr, c.FullPath(e.RejectAt)) {
-			return Violf("rejected at level %d: 'Usage: %s' missing from the error stream %q; %s", e.RejectAt, c.FullPath(e.RejectAt), normWS(out.Stderr), ctx)
+		shown := shownLevel(out.Stderr, c)
+		okLevel := false
+		for _, l := range e.RejectLevels {
+			okLevel = okLevel || l == shown
+		}
+		if !okLevel {
+			return Violf("rejected invocation: the usage of the rejecting command (one of the levels %v: first spec mismatch, or an unconvertible value before it) is missing from the error stream; it shows level %d: %q; %s",
+				e.RejectLevels, shown, normWS(out.Stderr), ctx)
+		}
+		pol = c.EffPolicy(shown)
+		if len(e.RejectLevels) > 1 {
+			st.Class("reject:several-candidate-levels")
+		}
+		if pol != c.Policy {
+			st.Class("reject:under-a-policy-set-on-a-subcommand")
 		}
 		switch pol {
 		case PolContinue:
@@ -518,13 +565,15 @@ func CheckTree(prop string, c *TreeCase, st *Stats) *Violation {
 				return Violf("PanicOnError: the error stream %q lacks the error text %q; %s", out.Stderr, perr.Error(), ctx)
 			}
 		}
-		if pol != PolContinue {
-			// the error stream must not depend on the policy
+		if pol == PolExit {
+			// under ExitOnError the error is neither returned nor raised: its text is taken from the same invocation under
+			// ContinueOnError and must be in the stream (the streams themselves are not compared: only "the error and the
+			// usage of the rejecting command" is promised)
 			c2 := *c
 			c2.forceContinue = true
 			ref := RunTree(&c2)
-			if ref.Stderr != out.Stderr {
-				return Violf("error stream differs between ContinueOnError (%q) and %v (%q); %s", ref.Stderr, policies[pol], out.Stderr, ctx)
+			if ref.HasErr && !strings.Contains(out.Stderr, ref.Err) {
+				return Violf("ExitOnError: the error stream %q lacks the error text %q (taken from the same invocation under ContinueOnError); %s", out.Stderr, ref.Err, ctx)
 			}
 		}
 		if e.RejectAt >= 1 || e.Conversion {
